@@ -3,12 +3,17 @@ package command
 import (
 	"context"
 	"strings"
+	"unicode/utf8"
 
 	storageerrors "github.com/formancehq/ledger/internal/storage/sqlutils"
 
 	ledger "github.com/formancehq/ledger/internal"
 	"github.com/formancehq/stack/libs/go-libs/logging"
+	"github.com/pkg/errors"
 )
+
+// maxIdempotencyKeyLength is the width of the logs.idempotency_key column
+const maxIdempotencyKeyLength = 255
 
 type executionContext struct {
 	commander  *Commander
@@ -46,6 +51,11 @@ func (e *executionContext) AppendLog(ctx context.Context, log *ledger.Log) (*led
 
 func (e *executionContext) run(ctx context.Context, executor func(e *executionContext) (*ledger.ChainedLog, chan struct{}, error)) (*ledger.ChainedLog, error) {
 	if ik := e.parameters.IdempotencyKey; ik != "" {
+		// the key is stored in a varchar(255) column: a longer one makes the store refuse the whole batch (and the writer
+		// panics on that), and when only blanks are in excess it is cut there and never found again by a retry
+		if n := utf8.RuneCountInString(ik); n > maxIdempotencyKeyLength {
+			return nil, errors.Errorf("idempotency key too long: %d characters, at most %d are allowed", n, maxIdempotencyKeyLength)
+		}
 		if err := e.commander.referencer.take(referenceIks, ik); err != nil {
 			return nil, err
 		}
